@@ -560,6 +560,10 @@ let process_trace header lines =
            phantom tasks here; it is refused since its repair) *)
         if not (hq_core_bijection_ok isys) then add_mon (Printf.sprintf "M C02 FAIL hq-core-bijection step=%d" !stepno);
         if not (single_execution_ok isys) then add_mon (Printf.sprintf "M C06 FAIL two-executions step=%d" !stepno);
+        (* C02, "runnable work is not forgotten" (Cluster/Wake.v, findings F30 / F31): while the
+           scheduler flag is off and nothing is in flight in the core, no ready task of the top
+           priority fits a worker *)
+        if not (wake_inv isys) then add_mon (Printf.sprintf "M C02 FAIL runnable-work-forgotten step=%d" !stepno);
         (* C07 (theorem crash_counter_rule as a monitor on the implementation's snapshots): the crash
            counter of a surviving task changes only by +1, only when a worker is lost for a failure
            reason, only for a task that was running *)
@@ -786,7 +790,11 @@ let process_trace header lines =
   (* (finding F12 - a dependency on an already failed / cancelled task was dropped and the task started -
      used to be classified as known here; such a submit is refused since its repair) *)
   if not (deps_respected [] [] [] tr) then add_mon "M C03 FAIL dependency-order-violated";
-  if not (journal_dep_closed [] [] tr) then add_mon "M C03 FAIL journal-prefix-would-restart-dependent-of-dead-task";
+  if not (journal_dep_closed [] [] tr) then begin
+    add_mon "M C03 FAIL journal-prefix-would-restart-dependent-of-dead-task";
+    (* ... which is also a crash point at which a restart does not reproduce the recorded state (C10) *)
+    add_mon "M C10 FAIL journal-prefix-would-restart-dependent-of-dead-task"
+  end;
   if not (instances_increase [] tr) then add_mon "M C06 FAIL instance-id-not-increasing";
   if not (no_start_after_giveup [] tr) then begin
     add_mon "M C06 FAIL start-after-retract-ack-or-cancel";
